@@ -289,22 +289,104 @@ def _same_as_executed(body, local, depth=0):
     return 0
 
 
+def _flag_expr(body, local):
+    """('field', name) / ('not', ('field', name)) when the bool local is a plain read of a flag field (or its negation), else None"""
+    ds = bool_atom_desc(body, local)
+    if len(ds) != 1:
+        return None
+    d = ds[0]
+    if d[0] == "field":
+        return ("field", d[1])
+    if d[0] == "not" and len(d[1]) == 1 and d[1][0][0] == "field":
+        return ("not", ("field", d[1][0][1]))
+    return None
+
+
+def _field_writers(body, name):
+    """blocks of `body` that may write field `name`: direct stores, and calls of local functions that (transitively) store to it"""
+    f = body.facts
+    key = ("fw", body.name, name)
+    cache = f.__dict__.setdefault("_fw_cache", {})
+    if key in cache:
+        return cache[key]
+    def stores(b):
+        return any(st["lhs"]["proj"] and st["lhs"]["proj"][-1]["k"] == "field" and st["lhs"]["proj"][-1]["name"] == name for blk in b.normal_blocks() for st in blk["stmts"])
+    writers_fns = {n for n, b in f.bodies.items() if not f.is_derived(b) and stores(b)}
+    out = set()
+    for blk in body.normal_blocks():
+        if any(st["lhs"]["proj"] and st["lhs"]["proj"][-1]["k"] == "field" and st["lhs"]["proj"][-1]["name"] == name for st in blk["stmts"]):
+            out.add(blk["id"])
+        t = blk["term"]
+        if t["k"] == "call" and t["callee"] and not t.get("inlined") and not t.get("inlined_async"):
+            cn = callee_base(t)
+            if cn in f.bodies and writers_fns & (f.cg.reach([cn], cross_spawn=False) | {cn}):
+                out.add(blk["id"])
+    cache[key] = out
+    return out
+
+
 def executed_true_region(body):
     out = set()
+    # stores `executed := <flag expression>` (e.g. `executed = !to_execute`), possibly in a helper spliced into this view
+    stores = []
+    for blk in body.normal_blocks():
+        for i, st in enumerate(blk["stmts"]):
+            pr = st["lhs"]["proj"]
+            if pr and pr[-1]["k"] == "field" and pr[-1]["name"] == "executed":
+                rv = st["rv"]
+                ex = None
+                if rv["k"] == "use" and rv["op"]["k"] in ("copy", "move") and not rv["op"]["place"]["proj"]:
+                    ex = _flag_expr(body, rv["op"]["place"]["local"])
+                elif rv["k"] == "unop" and rv["op"] == "Not" and rv["a"]["k"] in ("copy", "move"):
+                    inner = _flag_expr(body, rv["a"]["place"]["local"]) if not rv["a"]["place"]["proj"] else (("field", place_fields(rv["a"]["place"])[-1]) if place_fields(rv["a"]["place"]) else None)
+                    if inner is not None:
+                        ex = ("not", inner) if inner[0] == "field" else inner[1]
+                if ex is not None:
+                    stores.append((blk["id"], ex))
     for e in body.edges:
         l = e.label
         if l and l[0] == "bool" and l[2] is not None:
             sgn = _same_as_executed(body, l[2])
             if (sgn == 1 and l[1] is True) or (sgn == -1 and l[1] is False):
                 out |= body.dominated_by_edge(e)
+                continue
+            # the same expression as the one that was just stored into `executed`, with no write of the flag it reads in between
+            ex = _flag_expr(body, l[2])
+            if ex is None:
+                continue
+            neg = ("not", ex) if ex[0] == "field" else ex[1]
+            for (sb, sx) in stores:
+                if sx not in (ex, neg) or not body.dominates(sb, e.src) or sb == e.src:
+                    continue
+                fname = ex[1] if ex[0] == "field" else ex[1][1]
+                dom = body.dominated_by_block(sb)
+                back, stk = set(), [e.src]
+                while stk:   # blocks between the store and the test: backwards from the test, never leaving what the store dominates
+                    x = stk.pop()
+                    for pe in body.pred.get(x, ()):
+                        if pe.src in dom and pe.src not in back and pe.src != sb:
+                            back.add(pe.src)
+                            stk.append(pe.src)
+                between = back
+                if _field_writers(body, fname) & (between | {e.src}) - {sb}:
+                    continue
+                same = (sx == ex)
+                if (same and l[1] is True) or (not same and l[1] is False):
+                    out |= body.dominated_by_edge(e)
     return out
 
 
 def classify_ok_site(r, body, bb, st):
     """idiom of an ActorInputMessage::Ok construction: 'I1' | 'I2' | 'I3' | None, with a reason.
     The site is looked at inside the actor view that contains it (a handler extracted into a method is part of the actor)."""
-    body, bb, st = r.map_site(r.actors(), body, bb, st)
-    return _classify_ok_site(r, body, bb, st)
+    res = []
+    for (vb, vbb, vst) in r.map_sites(r.actors(), body, bb, st):
+        idiom, why = _classify_ok_site(r, vb, vbb, vst)
+        if idiom is None:
+            # one unguarded context is enough (a helper spliced in at several call sites is judged in each of them)
+            return None, why + (f" [in {short(vb.name)} at {vb.loc(vbb)}]" if vb.name != body.name else "")
+        res.append((idiom, why))
+    return res[0]
 
 
 def classify_msg_site(r, body, msg):
